@@ -30,6 +30,9 @@ def gen_case(seed, n, tier):
     c["split_seed"] = r.randrange(1 << 30)
     c["refetch"] = c["cache"] and not c["abort"] and c["status"] in (200, 203, 301, 404, 410) and r.random() < 0.7
     c["maxage"] = r.random() < 0.8
+    # interim responses before the final one (separate stream: earlier cases keep their shape)
+    r1 = random.Random(f"C01:1xx:{seed}:{n}")
+    c["interim"] = r1.choice(["103", "100", "102", "103,103", "103,100"]) if r1.random() < 0.15 else ""
     return c
 
 
@@ -77,6 +80,11 @@ def run(a, res):
             if resp.abort_at >= len(wire):
                 resp.abort_at = len(wire) - 1
             resp.abort_kind = c["abort_kind"]
+        if c.get("interim"):
+            texts = {"100": b"HTTP/1.1 100 Continue\r\n\r\n", "102": b"HTTP/1.1 102 Processing\r\n\r\n",
+                     "103": b"HTTP/1.1 103 Early Hints\r\nLink: </c01.css>; rel=preload\r\n\r\n"}
+            resp.interim = [texts[k] for k in c["interim"].split(",")]
+            res.count("origin_sent_interim", len(resp.interim))
         resp.case = c
         resp.wire_len = len(wire)
         resp.head_len = head_len
@@ -185,6 +193,7 @@ def run(a, res):
             conn.send(request_bytes(c["method"], url, [("Connection", "close")] if c["client_version"] == "HTTP/1.1" else [], None, c["client_version"], req_id=f"{a.seed}.{c['n']}.{which}"))
             m = conn.read_response(c["method"], timeout=30)
             conn.close()
+            res.count("interim_seen_by_client", len(conn.interim))
             judge(c, m, which)
             if which == "refetch" and m.start is not None and not m.error:
                 rid = m.header("X-Verif-Rid")
